@@ -8,6 +8,7 @@ def plan(tier):
     conds.append(Cond("vf.h.h_misc", "h_fold", case=0, timeout=600, label="H06-fold", weight=8))
     conds.append(Cond("vf.h.h_misc", "h_fold_deg", case=0, timeout=300, label="H06-fold-degenerate-head", weight=3))
     conds.append(Cond("vf.h.h_misc", "h_move2", case=0, timeout=300, label="H06-move-two-links", weight=3))
+    conds.append(Cond("vf.h.h_misc", "h_move_deg", case=0, timeout=300, label="H06-move-degenerate-head", weight=3))
     return {
         "conds": conds,
         "min_classes": 20,
